@@ -113,6 +113,10 @@ def variants(case, rnd, tier):
     out.append(("list", [mn]))
     out.append(("list", [full, "@" + "a", at]))                             # a term list: conjunction
     out.append(("list", [mn, "a*"]))                                        # plain wildcard / literal terms next to the rendering
+    # ... and, in the same process, the TEXT that joins the very same terms with " and " (no parentheses): another formula
+    # whenever a term has a top-level `or`; neither parse may decide the other (list first here, text first below)
+    out.append(("text", mn + " and a*"))
+    out.append(("text", "@?b and " + mn + " and zb"))
     out.append(("list", ["@?b", mn, "zb"]))
     leafy = "".join(case["leafy"])
     out.append(("text", leafy))                                             # every operand in its own parentheses
